@@ -177,7 +177,7 @@ def observe_multi(run, recs, reqs, extra=None):
     return observe(run, None, ex)
 
 
-def concurrent(scn, req, window, ch):
+def concurrent(scn, req, window, ch, request_first=False):
     from openpectus.engine import verif_hooks
     run = prepare(scn)
     sched = Scheduler(ch)
@@ -197,7 +197,12 @@ def concurrent(scn, req, window, ch):
     verif_hooks.set_handler(sched.point)
     deadlock = None
     try:
-        sched.run([ticker] + [requester(i) for i in range(len(reqs))])
+        # thread order decides which interleavings cost a preemption: with the requests first, a request that starts before
+        # the first tick and is cut later needs one preemption less
+        if request_first:
+            sched.run([requester(i) for i in range(len(reqs))] + [ticker])
+        else:
+            sched.run([ticker] + [requester(i) for i in range(len(reqs))])
     except Deadlock as d:
         deadlock = str(d)
     finally:
@@ -215,7 +220,8 @@ def concurrent(scn, req, window, ch):
 
 
 def explore_pair(item):
-    scn, req, window, bound = item
+    scn, req, window, bound = item[:4]
+    request_first = len(item) > 4 and item[4] == "request-first"
     serial = serial_outcomes(scn, req, window)
     single = isinstance(req, str)
     item_req = req
@@ -225,11 +231,11 @@ def explore_pair(item):
     outcomes = collections.Counter()
 
     def body(ch):
-        return concurrent(scn, item_req, window, ch)
+        return concurrent(scn, item_req, window, ch, request_first)
     for choices, (info, out) in explore.choice_vectors(body, bound):
         n += 1
         if out is None:
-            viol.append((f"C40:deadlock:{req}:{scn}", f"deadlock: {info['deadlock']}", {"scenario": scn, "request": item_req, "window": window, "choices": choices}))
+            viol.append((f"C40:deadlock:{req}:{scn}", f"deadlock: {info['deadlock']}", {"scenario": scn, "request": item_req, "window": window, "choices": choices, "request_first": request_first}))
             continue
         outcomes[out] += 1
         lost = lost_request(scn, req, out) if single else None
@@ -237,13 +243,13 @@ def explore_pair(item):
             serial_too = out in serial
             viol.append((f"C40:request-lost:{lost}:by-{req}:{scn}:{'also-in-serial-order' if serial_too else 'only-when-interleaved'}",
                          f"scenario {scn}: the accepted {lost} request had no effect (interleaving {compress(info['trace'])}); outcome {out[:400]}",
-                         {"scenario": scn, "request": item_req, "window": window, "choices": choices}))
+                         {"scenario": scn, "request": item_req, "window": window, "choices": choices, "request_first": request_first}))
             continue
         if out not in serial:
-            where = interleaving_shape(info["trace"]) if single else pair_shape(info["trace"])
+            where = (request_first_shape(info["trace"]) if request_first else interleaving_shape(info["trace"])) if single else pair_shape(info["trace"])
             viol.append((f"C40:not-serializable:{req}:{scn}:{where}",
                          f"request {req} in scenario {scn}: outcome of interleaving {compress(info['trace'])} equals no serial schedule; "
-                         f"outcome {out[:600]}", {"scenario": scn, "request": item_req, "window": window, "choices": choices}))
+                         f"outcome {out[:600]}", {"scenario": scn, "request": item_req, "window": window, "choices": choices, "request_first": request_first}))
     seen, uniq = set(), []
     for s, w, c in viol:
         if s not in seen:
@@ -256,11 +262,22 @@ def compress(trace):
     return [f"T{t}:{p}" for t, p in trace]
 
 
-def interleaving_shape(trace):
+def request_first_shape(trace):
+    """request thread is thread 0: at which of its points it was cut by the first tick step"""
+    last = "start"
+    for t, p in trace:
+        if t == 0:
+            last = p
+        else:
+            return f"request-cut-at-{last}-by-{p}"
+    return "request-not-cut"
+
+
+def interleaving_shape(trace, ticker=0):
     """between which tick phase the first request step ran: '<request point>@<last tick point before it>'"""
     last_tick = "start"
     for t, p in trace:
-        if t == 0:
+        if t == ticker:
             last_tick = p
         else:
             return f"{p}@{last_tick}"
@@ -290,6 +307,8 @@ def run(ctx):
     items = [(s, r, window, bound) for s in SCENARIOS for r in REQUESTS]
     # two requests and the ticking thread (one tick in the window)
     items += [(s, pr, 1, bound) for s in SCENARIOS for pr in PAIRS]
+    # the request thread scheduled first, over a longer window (a request that began before a tick and ends several ticks later)
+    items += [(s, r, 4, bound, "request-first") for s in SCENARIOS for r in ("edit", "inject", "pause", "stop")]
     ctx.prove_deterministic(lambda it: explore_pair((it[0], it[1], it[2], 0))[0:1], [items[1], items[8]], k=2)
     results = ctx.pmap(explore_pair, items, chunk=1)
     execs = 0
@@ -318,7 +337,7 @@ def replay(data):
         req = tuple(req)
     serial = serial_outcomes(scn, req, window)
     ch = explore.Chooser(data["choices"])
-    info, out = concurrent(scn, req, window, ch)
+    info, out = concurrent(scn, req, window, ch, data.get("request_first", False))
     print("scenario:", scn, SCENARIOS[scn]["method"].split("\n"), "request:", req)
     print("interleaving:", compress(info["trace"]))
     for o, j in serial.items():
@@ -328,6 +347,7 @@ def replay(data):
     if out is None:
         return [(f"C40:deadlock:{label}:{scn}", info["deadlock"])]
     if out not in serial:
-        shape = interleaving_shape(info['trace']) if isinstance(req, str) else pair_shape(info['trace'])
+        shape = ((request_first_shape(info['trace']) if data.get("request_first") else interleaving_shape(info['trace']))
+                 if isinstance(req, str) else pair_shape(info['trace']))
         return [(f"C40:not-serializable:{label}:{scn}:{shape}", "outcome equals no serial schedule")]
     return []
